@@ -15,6 +15,7 @@ from hypothesis.stateful import RuleBasedStateMachine, invariant, precondition, 
 
 from .. import formcheck, inputs, kernels, refeval, sanitize, specs, strategies
 from ..common import Run, ShardResult, canon, derive_seed, leave_crumb, run_shards, scratch, spec_hash, verif_seed
+from ..common import thorough  # noqa: E402
 from ..hyp import Outcome, drive
 from .c08 import NPERM, entity_table, form_sizes
 
@@ -278,7 +279,7 @@ def shard(shard, nshards, npool, nhist, nsteps, ntsan, seed):
 
 def run(tier: str) -> int:
     run_ = Run(PROP, tier, "exploration", RULE)
-    npool, nhist, nsteps, ntsan = (3, 6, 25, 1) if tier == "quick" else (10, 60, 60, 8)
+    npool, nhist, nsteps, ntsan = (3, 6, 25, 1) if tier == "quick" else (6, thorough(30), 60, 4)
     for part in run_shards(shard, 16, npool=npool, nhist=nhist, nsteps=nsteps, ntsan=ntsan, seed=verif_seed()):
         run_.merge(part)
     run_.assumptions = [
